@@ -7,7 +7,10 @@ Stage 2 (correspondence): repositories are built with the real library from host
   list_staged_objects, get_object and purge_object (result class, objects left, eviction of the
   handle's id->path cache as seen by later lookups) of the real library are compared, inside Coq
   (Corr/CheckListing.v), with the model's answers - defects included.  A hand-written
-  repository with unusual inventory spellings exercises the regex pre-filter.
+  repository with unusual inventory spellings exercises the regex pre-filter, its JSON decoding
+  and the raw-text fallback for strings that do not decode (fs.rs:1066-1070).
+  Ids that need a JSON escape (quote, backslash, control characters) are ordinary MUST-PASS inputs
+  since /repo 5a727de: found by id with and without layout, listed once, globs tested on the id itself.
 Stage 3 (direct search): model-free oracle on the same answers: listed ids == the driver's
   own record of committed ids (as a multiset), glob listing == the ids the glob matches,
   staged listing == ids with staged changes, committed ids open, never-committed / purged /
@@ -137,8 +140,8 @@ def glob_match_chars(toks, s):
 
 
 def glob_match_bytes(toks, s):
-    """what globset does: a byte regex in which . excludes LF"""
-    rx = b"".join(b"[^\n]*" if t[0] == "star" else b"[^\n]" if t[0] == "any" else re.escape(t[1].encode("utf-8"))
+    """what globset does: a byte regex (dot_matches_new_line: LF is a byte like any other)"""
+    rx = b"".join(b".*" if t[0] == "star" else b"." if t[0] == "any" else re.escape(t[1].encode("utf-8"))
                   for t in toks)
     return re.fullmatch(rx, s.encode("utf-8"), re.S) is not None
 
@@ -432,6 +435,45 @@ def occupied_case(rng, k, n):
     return {"k": k, "cfg": cfg, "ops": ops, "probes": probes, "globs": globs, "scripted": True, "deep": True}
 
 
+ESC_SETS = [['id"q', "id\\", "plain-1"], ['q"\\', "q\\", "tab\there"], ['x"id":"y', "x\\", "nl\nhere"],
+            ["back\\slash", "back", "ctl\x01x"], ['"', "\\", "bell\x07"], ["a\\nb", "a\nb", 'id"r']]
+
+
+def escape_case(rng, k, n):
+    """regression of /repo 5a727de: ids that are spelled with JSON escapes in the inventory, each next to the id that
+    is the escaped text cut at its first quote (what the pre-filter compared before the repair) - both committed, or the
+    cut text only probed.  Every id is found by get_object (scan without layout, layout path otherwise), listed once,
+    matched by globs on the id itself; purge removes exactly the named one; the cut text of a purged twin is not found."""
+    lay = ("none", "none", "0003", "0004")[n % 4]
+    ids = ESC_SETS[((n // 4) * 2 + n % 2) % len(ESC_SETS)]
+    esc_id, twin, other = ids
+    twin_committed = n % 3 != 2
+    cfg = {"layout": lay, "repo_spec": "1.1", "obj_spec": ("1.1", "1.0")[(n // 8) % 2], "alg": "sha256", "cdir": "content", "pad": 0,
+           "ext_staging": n % 3 == 0, "fresh_handle": (n // 4 + n) % 2 == 0}
+    root = (lambda j: "objs/e%d" % j) if lay == "none" else (lambda j: None)
+    ops = [{"op": "create", "raw": "keep", "id": "keep", "root": root(0), "pretty": False},
+           {"op": "create", "raw": esc_id, "id": esc_id, "root": root(1), "pretty": n % 4 >= 2}]
+    if twin_committed:
+        ops.append({"op": "create", "raw": twin, "id": twin, "root": root(2), "pretty": n % 8 >= 4})
+    ops += [{"op": "create", "raw": other, "id": other, "root": root(3), "pretty": True},
+            {"op": "update", "id": esc_id, "pretty": n % 2 == 0},
+            {"op": "purge", "id": twin if twin_committed else esc_id},
+            {"op": "update", "id": other, "pretty": False},
+            {"op": "purge", "id": esc_id},
+            {"op": "create", "raw": esc_id, "id": esc_id, "root": root(4), "pretty": False}]
+    cuts = [json.dumps(x, ensure_ascii=False)[1:-1].split('"')[0] for x in ids]
+    used = {o["id"] for o in ops}
+    probes = [c for c in dict.fromkeys(cuts + [twin, json.dumps(esc_id)[1:-1], esc_id + "x", "nope"]) if c and c not in used]
+    lit = lambda x: [("lit", c) for c in x]
+    special = [j for j, c in enumerate(esc_id) if c in '"\\' or ord(c) < 32]
+    g1 = lit(esc_id)
+    g2 = lit(esc_id)
+    g2[special[0]] = ("any",)
+    g3 = lit(esc_id[: special[0] + 1]) + [("star",)]
+    g4 = lit(twin) + [("star",)]
+    return {"k": k, "cfg": cfg, "ops": ops, "probes": probes[:6], "globs": [g1, g2, g3, g4], "scripted": True}
+
+
 def gen_cases(ctx):
     keys = ["none", "0003", "0004", "0002", "none", "0006", "0007", "0003b", "0004b", "none"]
     n = 170 if ctx.quick() else 4000
@@ -443,7 +485,9 @@ def gen_cases(ctx):
     m3 = 8 if ctx.quick() else 48
     cases += [refused_root_case(ctx.rng, n + m + m2 + j, j) for j in range(m3)]
     m4 = 4 if ctx.quick() else 16
-    return cases + [large_case(ctx.rng, n + m + m2 + m3 + j, j) for j in range(m4)]
+    cases += [large_case(ctx.rng, n + m + m2 + m3 + j, j) for j in range(m4)]
+    m5 = 12 if ctx.quick() else 96
+    return cases + [escape_case(ctx.rng, n + m + m2 + m3 + m4 + j, j) for j in range(m5)]
 
 
 # --------------------------------------------------------------------------- running a case
@@ -724,12 +768,12 @@ class Names:
 
 
 def checkpoint_term(case, cp):
-    """one Coq term per checkpoint: [esc; esc_s; names_unique t; q...] (one bit per query)"""
+    """one Coq term per checkpoint: [names_unique t; q...] (one bit per query)"""
     nm = Names()
     lmap = case.get("lmap")
     lay = "None" if case["cfg"]["layout"] == "none" else \
         "(Some [%s])" % "; ".join("(%s, %s)" % (nm.ref(i), cq_path(split_path(p))) for i, p in sorted(lmap.items()))
-    bits = ["c19_id_needs_escape t", "c19_id_needs_escape s", "names_unique t"]
+    bits = ["names_unique t"]
     t0 = ""
     for q in cp["queries"]:
         if q["kind"] == "validate_repo":
@@ -783,16 +827,11 @@ def direct_oracle(case, cp):
             elif q["errors"]:
                 msg = "validate_repo yielded %d error item(s)" % q["errors"]
             else:
-                # the validator does not read an id spelled with JSON escapes (C07's known finding
-                # validator-escaped-string): such an object is visited with id None
-                nones = len([i for i in got if i is None])
-                mg, mw = multiset([i for i in got if i is not None]), multiset(committed)
-                extra = [i for i in mg for _ in range(mg[i] - mw.get(i, 0))]
-                missing = [i for i in mw if mw[i] > mg.get(i, 0)]
-                anonymous = [i for i in missing if needs_escape(i)][:nones]
-                missing = [i for i in missing if i not in anonymous]
-                extra += [None] * (nones - len(anonymous))
-                q["extra"], q["missing"] = extra, missing
+                # (an object visited with id None - the validator could not read the id - counts as extra:
+                # since /repo 2f36fc5 the validator reads ids spelled with JSON escapes)
+                mg, mw = multiset(got), multiset(committed)
+                q["extra"] = [i for i in mg for _ in range(mg[i] - mw.get(i, 0))]
+                q["missing"] = [i for i in mw if mw[i] > mg.get(i, 0)]
             if msg is None and (q.get("extra") or q.get("missing")):
                 msg = "objects visited by validate_repo differ from the reference record: missing %r, extra %r" % (
                     q["missing"], q["extra"])
@@ -835,10 +874,11 @@ def judge_checkpoint(ctx, case, cp, bits, stats, known_ids):
     base = {"layout": layout, "fresh_handle": case["cfg"]["fresh_handle"], "ext_staging": case["cfg"]["ext_staging"],
             "case": case["k"], "committed": committed, "staged": staged, "purged": cp["purged"]}
     if bits is not None:
-        esc, esc_s, uniq = bits[:3]
+        uniq = bits[0]
         if not uniq:
             common.corr_break(ctx, "abstracted tree has duplicate names (driver bug)", dict(base))
-    pos = 3
+    pos = 1
+    esc_ids = [i for i in list(committed) + list(staged) if needs_escape(i)]
 
     def report(q, slugs, model_ok):
         msg = q["msg"]
@@ -865,12 +905,7 @@ def judge_checkpoint(ctx, case, cp, bits, stats, known_ids):
     for q in cp["queries"]:
         if q["kind"] == "validate_repo":
             stats["validate_repo"] += 1
-            slugs = []
-            extra, missing = q.get("extra", []), q.get("missing", [])
-            if q["msg"] and nolayout and (bits is None or esc) and extra and not missing \
-                    and all(i is None or needs_escape(i) for i in extra):
-                slugs.append("id-needs-json-escape")     # purge could not locate the object, the re-creation duplicated the id
-            report(q, slugs, True)
+            report(q, [], True)
         elif q["kind"] == "purge":
             stats["purge"] += 1
             if bits is None:
@@ -886,6 +921,10 @@ def judge_checkpoint(ctx, case, cp, bits, stats, known_ids):
             is_staged = q["kind"] == "list_staged"
             toks = q["toks"]
             stats["list_staged" if is_staged else ("list_glob" if toks is not None else "list_all")] += 1
+            if toks is not None and esc_ids:
+                stats["list_glob_over_escape_ids"] += 1
+                if any(glob_match_chars(toks, i) for i in esc_ids):
+                    stats["list_glob_matching_escape_id"] += 1
             if bits is None:
                 report(q, [], True)
                 continue
@@ -894,24 +933,19 @@ def judge_checkpoint(ctx, case, cp, bits, stats, known_ids):
             truth = staged if is_staged else committed
             slugs = []
             if q["msg"]:
-                e2 = esc_s if is_staged else esc
-                extra, missing = q.get("extra", []), q.get("missing", [])
-                if nolayout and not is_staged and toks is None and e2 and extra and not missing \
-                        and all(needs_escape(i) for i in extra):
-                    # purge (or the existence test of create) located nothing because the scan sees the escaped
-                    # text: purge reports success and leaves the object, a re-creation then duplicates the id
-                    slugs.append("id-needs-json-escape")
                 if toks is not None:
                     want_b = [i for i in truth if glob_match_bytes(toks, i)]
                     if multiset(q["got"]) == multiset(want_b) and any(t[0] == "any" for t in toks) and \
                             any(ord(ch) > 127 for i in truth for ch in i):
                         slugs.append("glob-qmark-one-byte")
-                    if e2:
-                        slugs.append("id-needs-json-escape")
             report(q, slugs, model_ok)
         else:
             oid = q["id"]
             stats["get_committed" if oid in committed else "get_absent"] += 1
+            if needs_escape(oid):
+                stats["get_escape_id_nolayout" if nolayout else "get_escape_id_layout"] += 1
+            elif nolayout and esc_ids:
+                stats["get_other_id_next_to_escape_ids"] += 1
             if bits is None:
                 report(q, [], True)
                 continue
@@ -920,13 +954,7 @@ def judge_checkpoint(ctx, case, cp, bits, stats, known_ids):
             if not q["coq"]:
                 model_ok = True          # cache of the live handle unknown for this id: direct oracle only
                 stats["get_live_uncompared"] += 1
-            slugs = []
-            if q["msg"]:
-                if nolayout and esc:
-                    # includes the second lookup of the cut text through the same handle: the scan cached
-                    # the wrong match (fs.rs:217-221), the cached path then fails the id comparison
-                    slugs.append("id-needs-json-escape")
-            report(q, slugs, model_ok)
+            report(q, [], model_ok)
 
 
 # --------------------------------------------------------------------------- hand-written inventories
@@ -947,6 +975,17 @@ CRAFT = [
     ("c13", '\n \n{   "id"\u2003:  "c13",'),
     ("c14", '{"id":\u3000"c14",'),
     ("c15", '{"id":"c15\\tx\\\\y",'),
+    # since 5a727de the captured JSON string is decoded (fs.rs:1068) ...
+    ("c18", '{"id":"c18\\ud83d\\ude00",'),       # a surrogate pair
+    ("c20", '{"id":"c20\\\\",'),                 # the id ends with a backslash
+    ("c21", '{"id":"c21\\"",'),                  # the id ends with a quote
+    ("c22", '{ "id" :\t"c22\\u0022x\\u005c",'),   # quote and backslash as \u escapes
+    # ... and a string that does not decode is compared as the raw text between the quotes (fs.rs:1069);
+    # the full parse of such an inventory fails: an error item where the matcher accepts the raw text
+    ("c16", '{"id":"c16\tx",'),                  # a raw TAB inside the string
+    ("c17", '{"id":"c17\\qx",'),                 # an unknown escape
+    ("c19", '{"id":"c19\\ud800",'),              # a lone surrogate
+    ("c23", '{"id":"c23\\u00",'),                # a short \u escape: the quote ends the capture
 ]
 
 
@@ -980,10 +1019,14 @@ def crafted_repo(ctx):
             items = [(split_path(os.path.relpath(i["ok"]["object_root"], r.root)), i["ok"]["id"]) for i in x["ok"] if "ok" in i]
             return {"kind": "list_objects", "glob": g, "items": items, "errors": len([i for i in x["ok"] if "ok" not in i])}
 
-        for g in [None, "*", "c*", "c?", "c1", "c6A", "c6\\\\u0041", "c7*", "c8", "c9*", "a*", "a\\\\", "SEED", "?", "*\u00e9*", "c1?"]:
+        for g in [None, "*", "c*", "c?", "c1", "c6A", "c6\\\\u0041", "c7*", "c8", "c9*", "a*", "a\\\\", "SEED", "?", "*\u00e9*", "c1?",
+                  "c16*", "c1??", "c17*", "c17\\\\qx", "c18?", "c18????", "c18*", "c19*", "c2?", "c20\\\\", "c20?", 'c21"', "c21?", 'c22"x\\\\',
+                  "c22?x?", "c22*", "c23*", "c23", 'a"*', "a?id*"]:
             qs.append(lst(g))
         for oid in ["SEED", "c1", "c2", "c3", "c4", "c5", "c6A", "c6\\u0041", "c7/x", "c7\\/x", "c8", "c9 \u00e9 \u00fc",
-                    "\u00e9\u20ac", "a\\", 'a"id":"zz', "c13", "c14", "c15\tx\\y", "c15\\tx\\\\y", "nope"]:
+                    "\u00e9\u20ac", "a\\", 'a"id":"zz', "c13", "c14", "c15\tx\\y", "c15\\tx\\\\y", "nope",
+                    "c16\tx", "c16\\tx", "c17\\qx", "c17qx", "c18\U0001F600", "c18\\ud83d\\ude00", "c19\\ud800", "c19", "c20\\", "c20\\\\",
+                    'c21"', "c21\\", 'c21\\"', 'c22"x\\', "c22\\u0022x\\u005c", "c23\\u00", "c23"]:
             r.reopen()
             x = r.s.call("get_object", h="A", id=oid)
             if "ok" in x:
@@ -1015,7 +1058,8 @@ def parse_bits(s):
 def execute(ctx, cases, vh, with_crafted=True):
     layout_paths(vh, cases)
     stats = {"queries": 0, "list_all": 0, "list_glob": 0, "list_staged": 0, "get_committed": 0, "get_absent": 0,
-             "get_live_uncompared": 0, "purge": 0, "purge_uncompared": 0, "validate_repo": 0, "checkpoints": 0, "create_failed": 0,
+             "get_live_uncompared": 0, "get_escape_id_nolayout": 0, "get_escape_id_layout": 0, "get_other_id_next_to_escape_ids": 0,
+             "list_glob_over_escape_ids": 0, "list_glob_matching_escape_id": 0, "purge": 0, "purge_uncompared": 0, "validate_repo": 0, "checkpoints": 0, "create_failed": 0,
              "cases": len(cases), "scripted_cases": len([c for c in cases if c.get("scripted")])}
     import time
     t0 = time.time()
@@ -1054,7 +1098,7 @@ def execute(ctx, cases, vh, with_crafted=True):
                                                  "observed": ev["panic"], "expected": "no panic"})
     for (run, cp), r in zip(owners, res):
         bits = parse_bits(r)
-        n_expected = 3 + sum(0 if q["kind"] == "validate_repo" else 1 for q in cp["queries"])
+        n_expected = 1 + sum(0 if q["kind"] == "validate_repo" else 1 for q in cp["queries"])
         if len(bits) != n_expected:
             raise common.BuildError("unexpected Coq output for a C19 checkpoint: %s" % r[:300])
         stats["checkpoints"] += 1
@@ -1084,7 +1128,9 @@ RULE = ("id-set cases: 3-8 ids drawn from a hostile pool (glob metacharacters, q
         "scripted cases without layout (A committed and looked up, purged, a new id B committed at the same root, "
         "purged, A committed elsewhere; one handle or fresh handles); scripted flat-layout cases (0002/0006) whose ids map onto the "
         "storage root's extensions directory and files or, with `/` in the id, onto a directory other objects are stored beneath "
-        "or a directory inside an object; every purge is compared with the model's purge_object (result, objects left); at the end validate_repo must visit exactly "
+        "or a directory inside an object; scripted escape cases (with and without layout: an id with a quote / backslash / control character "
+        "next to the id that is its escaped text cut at the first quote, both committed or the cut text only probed; globs that spell the id "
+        "literally, with ? for the escaped character, with a star after it); every purge is compared with the model's purge_object (result, objects left); at the end validate_repo must visit exactly "
         "the committed objects; after every "
         "commit and purge: list_objects(None), 4 generated globs, list_staged, get_object of committed, staged-only, purged and "
         "never-committed ids; distinct = distinct (layout, handle mode, query, reference state)")
@@ -1101,6 +1147,9 @@ def run(ctx):
     ctx.assumptions.append("the glob matcher (globset) and the layout mapping (StorageLayout::map_object_id) are inputs of the model: "
                            "theorems quantify over them, the correspondence uses the real mapping and a Gallina matcher for the generated glob subset")
     ctx.assumptions.append("inventory parsing is modelled for inventories whose first member is the id (what rocfl writes); the rest of the inventory is not interpreted")
+    ctx.assumptions.append("the id pre-filter (regex + serde_json decoding of the captured string + raw-text fallback, fs.rs:39-40, 1056-1090) is modelled on "
+                           "valid UTF-8 text; the theorems cover inventories written by rocfl's serialiser (any id bytes), hand-written spellings "
+                           "(whitespace, \\u escapes, surrogate pairs, strings that do not decode) are correspondence-checked on the crafted repository")
     ctx.assumptions.append("one handle without layout: get_object and purge_object are compared with the model only where the handle's cache "
                            "entry for that id is known to the driver (empty after open, removed by purge, written by a get_object that found "
                            "the id; unknown after new/cp/commit of that id until the next successful get_object); the direct oracle applies always")
